@@ -17,7 +17,7 @@ from typing import Any, Dict, List, Optional, Tuple
 
 from ..core import fde, guards as G, linear as L
 from ..core.classworld import ClassWorld
-from ..core.fde import IndexOutOfRange, Obj, Raised, Tag, Undecided
+from ..core.fde import OneShot, IndexOutOfRange, Obj, Raised, Tag, Undecided
 from ..core.findings import Report
 from ..core.loader import AnalysisError, Repo, dotted, norm, short
 
@@ -400,6 +400,16 @@ def _job_2d(args) -> Tuple[str, Any, int]:
             cases += 1
             if got != ("raise", "IndexError"):
                 return "bad", (f"shape {(h, wd)} key [({h}, 0)]", f"expected IndexError, got {got}"), cases
+            # the coordinate key as a one-shot iterable (zip(ys, xs), a generator): its pairs can be walked once
+            got = _call(lambda: get(OneShot(coords)))
+            cases += 1
+            verdict = compare(got, want, cls1, cls2)
+            if verdict:
+                return "bad", (f"shape {(h, wd)} key zip(ys, xs) with the pairs {coords}", verdict), cases
+            got = _call(lambda: get(OneShot([(0, 0), (h, 0)])))
+            cases += 1
+            if got != ("raise", "IndexError"):
+                return "bad", (f"shape {(h, wd)} key zip(..) with the pairs [(0, 0), ({h}, 0)]", f"expected IndexError, got {got}"), cases
     except Undecided as ex:
         return "undecided", str(ex), cases
     return "ok", None, cases
